@@ -42,7 +42,9 @@ type WFault struct {
 	PostLost   bool `json:"postLost,omitempty"`
 }
 
-func (f WFault) any() bool { return f.NotReady || f.StatusFail || f.RtFail || f.OutOfSync || f.PostLost }
+func (f WFault) any() bool {
+	return f.NotReady || f.StatusFail || f.RtFail || f.OutOfSync || f.PostLost
+}
 
 type WOp struct {
 	Kind      string   `json:"kind"` // cycle | scrape | round | restart | scale | discover | update | grow
@@ -408,17 +410,17 @@ func sameSnap(a, b loopSnap) bool {
 }
 
 type loopRun struct {
-	Line      string
-	NOps      int
-	CycleOps  []int // op index of every cycle
-	TailFrom  int   // index into CycleOps of the first tail cycle
-	Snaps     []loopSnap
-	SnapBefore []loopSnap // snapshot before every cycle
-	SnapAfter  []loopSnap // snapshot after every cycle (before the scrapes that follow)
-	ZeroUnplaced []bool   // per cycle: a healthy discovered zero-size target is on no shard after the cycle
-	FinalObs  []SObs
-	Err       error
-	Tags      map[string]bool
+	Line         string
+	NOps         int
+	CycleOps     []int // op index of every cycle
+	TailFrom     int   // index into CycleOps of the first tail cycle
+	Snaps        []loopSnap
+	SnapBefore   []loopSnap // snapshot before every cycle
+	SnapAfter    []loopSnap // snapshot after every cycle (before the scrapes that follow)
+	ZeroUnplaced []bool     // per cycle: a healthy discovered zero-size target is on no shard after the cycle
+	FinalObs     []SObs
+	Err          error
+	Tags         map[string]bool
 }
 
 // runLoopCase executes the case on real components and returns the line for the driver
